@@ -12,6 +12,49 @@ def _dict_value_src(fn, key):
     return None
 
 
+def alpha(fn):
+    """Copy of a function with its parameters (except self), local variables and nested function
+    names renamed v0, v1, … in order of first appearance, so that the statement pins below survive
+    a renaming of locals (a harmless rewrite) but not a change of what is computed."""
+    import copy
+
+    fn = copy.deepcopy(fn)
+    names = {}
+
+    def bind(n):
+        if n != "self" and n not in names:
+            names[n] = f"v{len(names)}"
+
+    class Collect(ast.NodeVisitor):
+        def visit_FunctionDef(self, node):
+            if node is not fn:
+                bind(node.name)
+            for a in node.args.posonlyargs + node.args.args + node.args.kwonlyargs:
+                bind(a.arg)
+            self.generic_visit(node)
+
+        def visit_Name(self, node):
+            if isinstance(node.ctx, ast.Store):
+                bind(node.id)
+
+    Collect().visit(fn)
+
+    class Rename(ast.NodeTransformer):
+        def visit_FunctionDef(self, node):
+            if node is not fn and node.name in names:
+                node.name = names[node.name]
+            for a in node.args.posonlyargs + node.args.args + node.args.kwonlyargs:
+                a.arg = names.get(a.arg, a.arg)
+            self.generic_visit(node)
+            return node
+
+        def visit_Name(self, node):
+            node.id = names.get(node.id, node.id)
+            return node
+
+    return Rename().visit(fn)
+
+
 def main(write, HEADER, parse, PKG):
     from py2lean import Unsupported, find_function
 
@@ -45,18 +88,21 @@ def main(write, HEADER, parse, PKG):
     # GHE.size as a list of state-machine operations
     ghx = parse("ground_heat_exchangers.py")
     size = find_function(ghx, "GHE.size")
+    if size is None:
+        raise Unsupported("ground_heat_exchangers.py", ghx, "GHE.size not found")
+    size = alpha(size)          # method -> v0, local_objective -> v1, h -> v2, max_hp_eft -> v3, min_hp_eft -> v4, t_excess -> v5, returned_height -> v6
     norm = lambda s: " ".join(ast.unparse(s).split())  # noqa: E731
     size_map = {
         "self.bhe.b.H = (self.sim_params.max_height + self.sim_params.min_height) / 2.0": "SizeOp.setMid",
-        "returned_height = solve_root(self.bhe.b.H, local_objective, lower=self.sim_params.min_height, upper=self.sim_params.max_height, abs_tol=1e-06, rel_tol=1e-06, max_iter=50)": "SizeOp.solve",
-        "self.bhe.b.H = returned_height": "SizeOp.setReturned",
-        "self.simulate(method=method)": "SizeOp.simulate",
+        "v6 = solve_root(self.bhe.b.H, v1, lower=self.sim_params.min_height, upper=self.sim_params.max_height, abs_tol=1e-06, rel_tol=1e-06, max_iter=50)": "SizeOp.solve",
+        "self.bhe.b.H = v6": "SizeOp.setReturned",
+        "self.simulate(method=v0)": "SizeOp.simulate",
     }
     obj_map = {
-        "self.bhe.b.H = h": "ObjOp.setH",
-        "max_hp_eft, min_hp_eft = self.simulate(method=method)": "ObjOp.simulate",
-        "t_excess = self.cost(max_hp_eft, min_hp_eft)": "ObjOp.cost",
-        "return t_excess": "ObjOp.ret",
+        "self.bhe.b.H = v2": "ObjOp.setH",
+        "v3, v4 = self.simulate(method=v0)": "ObjOp.simulate",
+        "v5 = self.cost(v3, v4)": "ObjOp.cost",
+        "return v5": "ObjOp.ret",
     }
     ops, oops = [], []
     for s in size.body:
@@ -81,21 +127,30 @@ def main(write, HEADER, parse, PKG):
     if fd is None:
         raise Unsupported("manager.py", mgr, "GHEManager.find_design not found")
     mgr_map = {
-        "start_time = time()": "MgrOp.startTimer",
+        "T = time()": "MgrOp.startTimer",
         "self._search = self._design.find_design()": "MgrOp.search",
         "self._search.ghe.compute_g_functions()": "MgrOp.computeG",
-        "self._search_time = time() - start_time": "MgrOp.stopTimer",
+        "self._search_time = time() - T": "MgrOp.stopTimer",
         "self._search.ghe.size(method=TimestepType.HYBRID)": "MgrOp.size",
         "return 0": "MgrOp.ret0",
     }
+    fd = alpha(fd)              # throw -> v0, message (inside the guard) / start_time by first appearance
     mops = []
     body = [s for s in fd.body if not (isinstance(s, ast.Expr) and isinstance(s.value, ast.Constant))]
     guard = body[0] if body else None
     if not (isinstance(guard, ast.If) and norm(guard.test).startswith("not all([") and not guard.orelse
             and isinstance(guard.body[-1], ast.Return)):
         raise Unsupported("manager.py", fd, "find_design does not start with the all-properties-set guard")
+    import re
+
+    timer = None
     for s in body[1:]:
         k = norm(s)
+        m = re.fullmatch(r"(v\d+) = time\(\)", k)
+        if m and timer is None:
+            timer, k = m.group(1), "T = time()"
+        elif timer is not None:
+            k = re.sub(rf"\b{timer}\b", "T", k)
         if k not in mgr_map:
             raise Unsupported("manager.py", s, "statement of GHEManager.find_design outside the modelled set")
         mops.append(mgr_map[k])
